@@ -319,6 +319,18 @@ func (g *Gen) node(depth int) *Node {
 				}
 			}
 			g.req(n)
+			if r.P(g.P.PDefault) && n.Elem.Kind == KSlice && IsPrim(n.Elem.Elem.Kind) && !n.Elem.Elem.Named {
+				// a default for a slice of slices
+				n.HasDef = true
+				n.DefSlice = []Leaf{}
+				for i := r.Intn(3); i > 0; i-- {
+					inner := Leaf{Kind: KSlice, L: []Leaf{}}
+					for j := r.Intn(3); j > 0; j-- {
+						inner.L = append(inner.L, g.leaf(n.Elem.Elem.Kind))
+					}
+					n.DefSlice = append(n.DefSlice, inner)
+				}
+			}
 			if r.P(g.P.PDefault) && IsPrim(n.Elem.Kind) {
 				n.HasDef = true
 				k := r.Intn(3)
